@@ -7,6 +7,7 @@ import Bng.Model.CircuitKey
     new            => ok
     key <hex|->    => <64 hex digits>
     hash <hex|->   => <16 hex digits>
+    mac <hex|->    => <12 hex digits>        (ebpf.MACToUint64 of a hardware address of any length, hlen 0…16)
 -/
 namespace Bng.Drv.CircuitKeyDrv
 open Bng Bng.Drv Bng.CircuitKey
@@ -51,6 +52,17 @@ def step (st : St) (toks : List String) (impl : String) : St × LineResult :=
         -- clause D58: a 64-bit hash of an unbounded string cannot be injective; every hash collision is that finding
         ({ st with mon := mon' },
          { modelObs := toHexW (CircuitKey.hash cid).toNat 16, viols := vs.map fun (n, d, _) => (n, if n == "dup-key" then "D58" else "none", d) })
+      else if kind == "mac" then
+        let ev := match parseHex impl with
+          | some x => Ev.mac cid x
+          | none => .nop
+        let (mon', vs) := CircuitKey.check st.mon ev
+        -- clause KF-mackey-hlen: the collision involves a hardware address that is not 6 bytes long (shorter ones
+        -- all get key 0, longer ones are cut to 6 bytes); a collision between two 6-byte addresses is a new violation
+        let clause := fun (n : String) (other : List UInt8) =>
+          if n == "dup-key" && (cid.length != 6 || other.length != 6) then "KF-mackey-hlen" else "none"
+        ({ st with mon := mon' },
+         { modelObs := toHexW (macKey cid) 12, viols := vs.map fun (n, d, o) => (n, clause n o, d) })
       else (st, { modelObs := "badop" })
   | _ => (st, { modelObs := "badop" })
 
